@@ -556,6 +556,46 @@ func c20Enumerate(tier string, f func(c20Scenario)) {
 		}
 		emitKey(c20Subject{"chunk/h/4", ref.RDBEnc{Kind: "table"}, 9}, "chunked", 64, key)
 	}
+	// older-target family: prior content x policy x a target that does not know the value's encoding. A 6.2
+	// target answers RESTORE of a Redis 7 listpack / quicklist2 / stream-v3 value with BUSYKEY while the key
+	// exists and REPLACE is not given, with "Bad data format" otherwise (rdbRun models that order); the plain
+	// replay then falls back to native commands and has to apply the same policy; a 7.2 target takes the
+	// payload. Bidirectional replay has no fallback: a reported refusal without checkpoint is accepted there.
+	for _, tv := range []string{"6.2.0", "7.2.0"} {
+		for _, sub := range []c20Subject{
+			{"hash/small", ref.RDBEnc{Kind: "listpack"}, 10},
+			{"zset/small", ref.RDBEnc{Kind: "listpack"}, 11},
+			{"list/small", ref.RDBEnc{Kind: "quicklist2", Node: 2}, 10},
+			{"set/small", ref.RDBEnc{Kind: "listpack"}, 11},
+			{"stream/samefields", ref.RDBEnc{Kind: "v3"}, 11},
+		} {
+			for _, policy := range []string{"replace", "ignore", "error"} {
+				for _, bi := range []bool{false, true} {
+					for _, restore := range []bool{true, false} {
+						for _, x := range []string{"", "future"} {
+							for _, sp := range priors {
+								if !thorough && (bi || !restore) && (x == "future" || sp.ttl) {
+									continue // the full prior x expiry product for the plain RESTORE path, a reduced one elsewhere
+								}
+								path := "restore"
+								if !restore {
+									path = "expanded"
+								}
+								cfg := rdbCfg{Restore: restore, BulkLen: c03BigBulk, Parallel: 1, DbMode: "id", Resume: true, Bisync: bi, Policy: policy, TargetVer: tv}
+								subj := rdbKeySpec{DB: 0, Key: "subj", Case: sub.Case, Enc: sub.Enc, Exp: x, Idle: -1, Freq: -1}
+								comp := rdbKeySpec{DB: 0, Key: "comp", Case: "string/short", Enc: ref.RDBEnc{Kind: "raw"}, Idle: -1, Freq: -1}
+								s := c20Scenario{rdbScenario: rdbScenario{Keys: []rdbKeySpec{subj, comp}, Version: sub.Version, Aux: true, Cfg: cfg}, Path: path}
+								if sp.kind != "" {
+									s.Pre = []c20Pre{{Key: "subj", Kind: sp.kind, TTL: sp.ttl}}
+								}
+								f(s)
+							}
+						}
+					}
+				}
+			}
+		}
+	}
 	// reply-text family: what the target answers to the subject's RESTORE
 	for _, inject := range []string{"busy28", "BUSY Redis is busy running a script. You can only call SCRIPT KILL or SHUTDOWN NOSAVE.", "LOADING Redis is loading the dataset in memory", "BUSYGROUP Consumer Group name already exists"} {
 		for _, sub := range []c20Subject{{"string/short", ref.RDBEnc{Kind: "raw"}, 9}, {"hash/small", ref.RDBEnc{Kind: "listpack"}, 10}} {
@@ -650,6 +690,10 @@ func runC20(t *testing.T, rep *mc.Reporter) {
 		}
 		mc.RunScenario(rep, scn, 0, budget, func(ch *mc.Chooser) mc.Result {
 			r := c20Exec(t, scn, ch)
+			if r.Verdict == "ok" && r.Detail == rdbRefusedOlderTarget {
+				rep.Count("reported_refusal_older_target", 1)
+				r.Detail = nil
+			}
 			if r.Verdict == "ok" && r.Detail == "config-rejected" {
 				rep.Count("configurations_rejected_by_the_loader", 1)
 				r.Detail = nil
